@@ -254,6 +254,7 @@ struct Run {
     std::vector<std::pair<uint64_t, std::function<void()>>> timed;  // environment events (time, action), kept sorted
     uint64_t timed_seq = 0;
     std::function<void(const char *prop, const char *sig, const char *detail)> on_violation;
+    std::function<void(int tid, const void *mutex)> on_mutex_acquired;   // harness hook: a simulated thread now owns a mutex (lock or cond_wait return)
     sem_t done_sem;
 };
 
